@@ -185,7 +185,7 @@ def check(case, ctx):
             kw['loss'] = ref_kw['loss'] = slots['loss']
         prec = slots.get('precision')
         if prec is not None:
-            kw['precision'] = ref_kw['precision'] = prec
+            kw['precision'] = prec   # the reference stays unrounded: |round(x) - ref| <= tol + 0.5*10^-p
         if not mono:
             kw['monoisotopic'] = False
         ref = refmass.ref_mass(P, mono=mono, **ref_kw)
@@ -207,14 +207,12 @@ def check(case, ctx):
             kw2.pop('charge_adducts', None)
             ref_unrounded = refmass.ref_mass(P, mono=mono, **{k: v for k, v in ref_kw.items() if k != 'precision'})
             refz = ref_unrounded / z
-            if prec is not None:
-                refz = round(refz, prec)
             if 'adducts_arg' in slots:
                 kw2['charge_adducts'] = slots['adducts_arg']
             st, gz = lib.call(p.mz, s, **kw2)
             ctx.evals += 1
             devz = (gz - refz) if st == 'ok' and isinstance(gz, (int, float)) else None
-            if st != 'ok' or not lib.close(gz, refz, tol_for(mono, prec) / z + (0.5 * 10 ** (-prec) if prec is not None else 0)):
+            if st != 'ok' or not lib.close(gz, refz, (1e-5 if mono else 2e-3) / z + (0.5 * 10 ** (-prec) if prec is not None else 0)):
                 ctx.fail('mz', refz, gz, call=['mz', s, kw2], deviation=devz,
                          adducts=adducts, monoisotopic=mono, precision=prec, charge=z,
                          avg_minus_mono_of_mods=_avg_mono_gap(P, ref_kw.get('ion', 'p')))
@@ -316,7 +314,7 @@ def _d5(case, f):
     z = f.get('charge') if f['clause'] == 'mz' else 1
     base = (1e-5 if f.get('monoisotopic', True) else 2e-3) / z
     if f.get('precision') is not None:
-        base += 10 ** (-f['precision'])
+        base += 0.5 * 10 ** (-f['precision'])
     return abs(f['deviation'] - pred / z) <= base
 
 
